@@ -910,3 +910,25 @@ pub extern "C" fn cs_final2() {
     expect_counts(i, j);
     cover(13);
 }
+
+/// a second publishing writer (obj3, payload 78) for three-thread publication scenarios (needs cs_setup1_scribble)
+#[no_mangle]
+pub extern "C" fn cs_w_publish3() {
+    let v = spare(3);
+    v.set_payload(78);
+    a().store(v);
+}
+/// reader for the three-thread scenarios
+#[no_mangle]
+pub extern "C" fn cs_r_published3() {
+    let g = a().load();
+    let p = g.read();
+    let i = g.idx();
+    vassert((i == 0 && p == 10) || (i == 1 && p == 77) || (i == 3 && p == 78), 30);
+    drop(g);
+    let v = a().load_full();
+    let p = v.read();
+    let i = v.idx();
+    vassert((i == 0 && p == 10) || (i == 1 && p == 77) || (i == 3 && p == 78), 31);
+    drop(v);
+}
